@@ -1,6 +1,6 @@
 #!/bin/bash
 # confirm_batch.sh <ids...> : copies $SEED_ROOT/out/<id>/{letters} to /verif/seeded/<id>-<letter> and confirms each in $SEED_ROOT/tmpl
-# SEED_ROOT defaults to /tmp/seed2, SEED_LETTERS to "A B" (round 3: SEED_ROOT=/tmp/seed3 SEED_LETTERS="C D E")
+# SEED_ROOT defaults to /tmp/seed2, SEED_LETTERS to "A B" (round 3: SEED_ROOT=/tmp/seed3 SEED_LETTERS="C D E"; round 5: /tmp/seed5 "H I")
 ROOT=${SEED_ROOT:-/tmp/seed2}; LETTERS=${SEED_LETTERS:-A B}
 for id in "$@"; do for x in $LETTERS; do
   src=$ROOT/out/$id/$x; dst=/verif/seeded/$id-$x
